@@ -97,6 +97,7 @@ func (w *World) writeReplayTestFiles(workdir string) (overlayPath string) {
 			fmt.Fprintf(&sb, "\t%q: %s,\n", n, n)
 		}
 		sb.WriteString("}\n\nfunc TestVerifReplay(t *testing.T) {\n\tf := zzVerifTable[os.Getenv(\"VRT_HARNESS\")]\n\tif f == nil {\n\t\tt.Fatalf(\"unknown harness\")\n\t}\n")
+		sb.WriteString("\tif os.Getenv(\"VRT_RACE\") != \"\" {\n\t\t// race replay: the same harness in 8 goroutines at once (run under go test -race)\n\t\tvrt.Reset()\n\t\tvrt.Concurrent = true\n\t\tdone := make(chan bool)\n\t\tfor g := 0; g < 8; g++ {\n\t\t\tgo func() {\n\t\t\t\tfor k := 0; k < 25; k++ {\n\t\t\t\t\tvrt.RunGuarded(f)\n\t\t\t\t}\n\t\t\t\tdone <- true\n\t\t\t}()\n\t\t}\n\t\tfor g := 0; g < 8; g++ {\n\t\t\t<-done\n\t\t}\n\t\tfor _, m := range vrt.Failures {\n\t\t\tt.Errorf(\"ASSERT FAILED: %s\", m)\n\t\t}\n\t\treturn\n\t}\n")
 		sb.WriteString("\tn := 1\n\tif os.Getenv(\"VRT_REPEAT\") != \"\" {\n\t\tn = 200\n\t}\n\tfor i := 0; i < n; i++ {\n\t\tvrt.Reset()\n")
 		sb.WriteString("\t\tpanicked, skipped, val := vrt.RunGuarded(f)\n\t\tif panicked {\n\t\t\tt.Fatalf(\"PANIC: %v\", val)\n\t\t}\n\t\tif skipped {\n\t\t\tt.Logf(\"ASSUMPTION-FAILED\")\n\t\t}\n")
 		sb.WriteString("\t\tfor _, m := range vrt.Failures {\n\t\t\tt.Errorf(\"ASSERT FAILED: %s\", m)\n\t\t}\n\t\tif t.Failed() {\n\t\t\treturn\n\t\t}\n\t}\n}\n")
@@ -137,6 +138,17 @@ func (w *World) replayNative(overlayPath string, doc *ReplayDoc, docPath string,
 		ok = strings.Contains(s, "ASSERT FAILED: "+msg)
 	}
 	return s, ok
+}
+
+// replayRace runs the harness concurrently in several goroutines under the race detector.
+func (w *World) replayRace(overlayPath string, doc *ReplayDoc, docPath string) (string, bool) {
+	cmd := exec.Command("go", "test", "-race", "-vet=off", "-count=1", "-overlay", overlayPath, "-run", "^TestVerifReplay$", "./"+doc.Pkg)
+	cmd.Dir = w.repo
+	cmd.Env = append(os.Environ(), "GOFLAGS=-mod=mod", "GOPROXY=off", "GOSUMDB=off", "GOTOOLCHAIN=local",
+		"VRT_MODEL="+docPath, "VRT_HARNESS="+doc.Harness, "VRT_RACE=1")
+	out, _ := cmd.CombinedOutput()
+	s := string(out)
+	return s, strings.Contains(s, "DATA RACE") || strings.Contains(s, "ASSERT FAILED")
 }
 
 func cmdCheck(args []string) {
@@ -337,6 +349,21 @@ func cmdCheck(args []string) {
 					out2, ok2 := w.replayNative(ovp, doc, docPath, true)
 					if ok2 {
 						out, ok = out2, true
+					}
+				}
+				isFrame := strings.Contains(o.Name, "(candidate writes:")
+				if !ok && isFrame && (*prop == "C16" || *prop == "C15") {
+					// a write to a pre-existing location that is not observable sequentially: is it a data race?
+					rout, rok := w.replayRace(ovp, doc, docPath)
+					if rok && *prop == "C16" {
+						out, ok = rout, true
+						doc.Kind = "race"
+					} else if *prop == "C15" {
+						doc.Native = lastLines(out, 6)
+						b, _ = json.MarshalIndent(doc, "", " ")
+						os.WriteFile(docPath, b, 0o644)
+						lines = append(lines, fmt.Sprintf("NOTE property=%s harness=%s: %s: the write is not observable through the public API in a sequential replay (the harness' own result comparisons decide C15; C16 judges it under the race detector)", *prop, s.Name, o.Name))
+						continue
 					}
 				}
 				doc.Native = lastLines(out, 12)
